@@ -105,13 +105,13 @@ def referenced_pool(repo, cfg):
 FAULTS = ["404", "500", "wrong-length", "short", "short-announced", "long", "abort"]
 
 
-def gen_plan(rng, cls, repo, cfg, store):
+def gen_plan(rng, cls, repo, cfg, store, skip_pool=()):
     """plan: list of [relurl, attempt|"*", fault]; returns (plan, info)"""
     url = repo["url"]
     plan = []
     info = {"class": cls}
     groups = required_objects(repo, cfg, store)
-    pool = referenced_pool(repo, cfg)
+    pool = {p: sz for p, sz in referenced_pool(repo, cfg).items() if p not in skip_pool}
     if cls == "none":
         return plan, info
     if cls == "transient":
